@@ -539,7 +539,13 @@ def construct(em, n, ii, rec):
         an = norm_name(qt(a0) or '')
         if len(ii) == 1 and (an.startswith('unique_ptr<') or 'nullptr_t' in an or an == 'decltype(nullptr)'):
             if an.startswith('unique_ptr<'):
-                return '((%s)(%s))' % (em.cdecl(t), em.E(a0))      # move: ownership transfer
+                # move construction: ownership goes to the new object and the source is left null (a later use of the source
+                # is then a null dereference for cbmc, as it is for the real code)
+                src = em.E(a0)
+                if a0.get('valueCategory') in ('xvalue', 'lvalue') and re.match(r'^[\w\->.()*&\s\[\]]+$', src):
+                    em.lowerings['M-mem(unique_ptr move: source nulled)'] += 1
+                    return '({ %s = (%s)(%s); %s = 0; __moved; })' % (em.cdecl(t, '__moved'), em.cdecl(t), src, src)
+                return '((%s)(%s))' % (em.cdecl(t), src)
             return '((%s)0)' % em.cdecl(t)
         raise ExtractError('unmodelled unique_ptr constructor')
     if rec is None and re.match(r'^(const)?(basic_string<char|string$)', tn.replace('const', '', 1) if tn.startswith('const') else tn):
